@@ -1543,8 +1543,13 @@ def run(prop, tier, seed, t0):
             c3["ep"] += epoff
             cs3.cases.append(c3)
         events += execute(cs3, wdir, profile="dbg")
+    tiers = {}
     for e in events:
         e.pop("_cfgname", None)
+        if "tier" in e and e.get("ty") in ("f32", "f64"):
+            k = "%s:%s" % (e["op"], e["tier"])
+            tiers[k] = tiers.get(k, 0) + 1
+    extra["implementation_tiers_exercised"] = tiers
     mres = models_for(models, tier)
     t1 = time.time()
     result = vlib.judge(events, wdir)
